@@ -320,7 +320,8 @@ def extra_units():
     from contracts import c20, c08
     from pyvc.units import share
     # ... and the multiprocess job loop declares the read group of every fragment it writes (C08's unit)
-    return [share(c20.sort_and_index, PROP), share(c08.run_task_rg, PROP)]
+    # ... and the parts the workers wrote are all merged, whatever they hold (C20's merge_bams unit)
+    return [share(c20.sort_and_index, PROP), share(c08.run_task_rg, PROP), share(c20.merge_bams, PROP)]
 
 
 # ------------------------------------------------------------------------------ get_contigs_with_reads: which contigs get a job
